@@ -82,42 +82,44 @@ type Axiom struct {
 }
 
 type FuncContract struct {
-	Key      string
-	File     string
-	Line     int
-	Props    []string
-	Requires []Clause
-	Ensures  []Clause
-	Assigns  []Expr // nil = unspecified (havoc everything reachable)
-	HasAsg   bool
-	AsgNone  bool
-	LoopInv  map[int][]Clause
-	LoopDec  map[int]Clause
-	Safety   map[string]bool
-	HasSafe  bool
-	Trusted  bool
-	Inline   bool
-	Pure     bool
-	MayPanic bool
-	NoBody   bool // contract only used at call sites, body not verified (trusted)
-	Extern   bool // declared with "extern": key is global (RelString(nil))
-	Params   []Param
-	Results  []Param
-	Uses     []string // lemmas assumed while verifying this function
-	RecvName string
-	PkgInit  bool
-	Defines  []Clause // ghost definitions about fresh results: assumed by callers, not checked in the body
+	Key        string
+	File       string
+	Line       int
+	Props      []string
+	Requires   []Clause
+	Ensures    []Clause
+	Assigns    []Expr // nil = unspecified (havoc everything reachable)
+	HasAsg     bool
+	AsgNone    bool
+	LoopInv    map[int][]Clause
+	LoopDec    map[int]Clause
+	Safety     map[string]bool
+	HasSafe    bool
+	Trusted    bool
+	Inline     bool
+	Pure       bool
+	MayPanic   bool
+	NoBody     bool // contract only used at call sites, body not verified (trusted)
+	Extern     bool // declared with "extern": key is global (RelString(nil))
+	Params     []Param
+	Results    []Param
+	Uses       []string // lemmas assumed while verifying this function
+	RecvName   string
+	PkgInit    bool
+	Reveals    []string // opaque spec functions whose definition this proof needs
+	WrapAround bool // int arithmetic wraps (Go semantics) instead of carrying an overflow obligation
+	Defines    []Clause // ghost definitions about fresh results: assumed by callers, not checked in the body
 	AllocBound *Clause
-	Forbids  []string
-	Decreases *Clause
+	Forbids    []string
+	Decreases  *Clause
 }
 
 type ContractFile struct {
 	Invariants []Clause // package-level invariants over global variables
-	Path   string
-	Specs  []*SpecFunc
-	Axioms []*Axiom
-	Funcs  []*FuncContract
+	Path       string
+	Specs      []*SpecFunc
+	Axioms     []*Axiom
+	Funcs      []*FuncContract
 }
 
 // ---------- lexer
@@ -589,7 +591,7 @@ var clauseKW = map[string]bool{
 	"func": true, "spec": true, "uf": true, "axiom": true, "lemma": true, "pred": true,
 	"requires": true, "ensures": true, "assigns": true, "loop": true, "safety": true,
 	"props": true, "trusted": true, "inline": true, "pure": true, "maypanic": true, "nobody": true,
-	"extern": true, "opaque": true, "uses": true, "allocbound": true, "forbids": true, "decreases": true, "invariant": true, "defines": true,
+	"extern": true, "opaque": true, "uses": true, "allocbound": true, "forbids": true, "decreases": true, "invariant": true, "defines": true, "wraparound": true, "reveals": true,
 }
 
 type rawClause struct {
@@ -703,6 +705,8 @@ func ParseContractFile(path string) (*ContractFile, error) {
 				cur.Props = append(cur.Props, strings.Fields(rc.text)...)
 			case "uses":
 				cur.Uses = append(cur.Uses, strings.Fields(rc.text)...)
+			case "reveals":
+				cur.Reveals = append(cur.Reveals, strings.Fields(rc.text)...)
 			case "forbids":
 				cur.Forbids = append(cur.Forbids, strings.Fields(rc.text)...)
 			case "allocbound", "decreases":
@@ -785,6 +789,8 @@ func ParseContractFile(path string) (*ContractFile, error) {
 				cur.AsgNone = true
 			case "maypanic":
 				cur.MayPanic = true
+			case "wraparound":
+				cur.WrapAround = true
 			}
 		}
 	}
